@@ -7,7 +7,7 @@
 import PydapModel.Dap4
 import Proofs.Dap4
 import Proofs.DmrOrder
-import Props.C11
+import Proofs.DmrDemo
 namespace Pydap.C10
 open Pydap.Dap4 Pydap.Dmr
 
@@ -123,9 +123,9 @@ example : unpackVars false [⟨2, 2⟩] (serialise false [⟨2, [1, 65535], 7⟩
     = .ok [⟨[1, 65535], some 117440512⟩] := by rfl
 example : serialise true [⟨2, [1, 65535], 7⟩] = [1, 0, 255, 255, 7, 0, 0, 0] := by decide
 
-example : distinctNodes Pydap.C11.demo := by unfold distinctNodes; decide
-example : decodeOrder (renderRoot [] "ds".toList Pydap.C11.demo) = .ok (expectVars Pydap.C11.demo) :=
-  C10_decode_order [] _ _ Pydap.C11.demo_ok Pydap.C11.demo_refs (by unfold distinctNodes; decide)
+example : distinctNodes demo := by unfold distinctNodes; decide
+example : decodeOrder (renderRoot [] "ds".toList demo) = .ok (expectVars demo) :=
+  C10_decode_order [] _ _ demo_ok demo_refs (by unfold distinctNodes; decide)
     (by unfold distinctDims; decide)
 
 end Pydap.C10
